@@ -21,7 +21,7 @@ RULE = ("areas drawn over the signed WGS-84 range (incl. |lat| up to 85 deg and 
         "(area, receiver position); non-trivial = the oracle's two projections agree and the point is outside the tolerance band.")
 ASSUMPTIONS = ["tolerance band max(1 m, 1 % of the semi-axis, disagreement between great-circle and equirectangular projection) around the border is excluded, as the property allows",
                "sender == source in the two-station runs (the implementation can only look up the source's LocTE for Annex D)"]
-REQUIRED_COUNTERS = ["F.judged_in", "F.judged_out", "D.deliveries_judged", "D.forward_judged", "D.size_judged", "F.history_evaluations", "D.sequence_deliveries_judged", "D.annex-D-table-and-packet-position-disagree"]
+REQUIRED_COUNTERS = ["F.judged_in", "F.judged_out", "D.deliveries_judged", "D.forward_judged", "D.size_judged", "F.history_evaluations", "D.sequence_deliveries_judged", "D.annex-D-table-and-packet-position-disagree", "D.receiver_link_layer_refuses_next_frame"]
 
 RADII = (0.0, 0.5, 0.9, 0.98, 1.02, 1.1, 2.0, 10.0)
 SHAPE_NAMES = ("circle", "rect", "elip")
